@@ -2,6 +2,8 @@ package eng
 
 import (
 	"bytes"
+	"encoding/binary"
+	"encoding/hex"
 	"encoding/json"
 	"fmt"
 	"io"
@@ -534,6 +536,7 @@ server6:
 
 	// helper: one DHCPv6 message from the link-local client fe80::aa:5<k> on ve1 to the server's link-local
 	// address (unicast) or to ff02::1:2; returns the prefixes of the reply's IA_PDs (nil = no reply)
+	link6 := "ve1" // the link the helper's client sits on (multicast only when it is not ve1)
 	solicit6 := func(k int, typ byte, multicast bool) ([]string, bool) {
 		cmac := []byte{0x02, 0xaa, 0x00, 0x00, 0x00, 0x50 + byte(k)}
 		var src16, dst16 [16]byte
@@ -553,7 +556,7 @@ server6:
 			opts = append(opts, pkt.O6(pkt.OptServerID6, pkt.DUIDLL([]byte{0x00, 0xde, 0xad, 0xbe, 0xef, 0x00})))
 		}
 		msg := pkt.Msg6(typ, w.xid&0xffffff, opts)
-		obs := w.exchange("ve1", pkt.BuildFrame6(cmac, dmac, src16, dst16, 546, 547, msg), 500*time.Millisecond)
+		obs := w.exchange(link6, pkt.BuildFrame6(cmac, dmac, src16, dst16, 546, 547, msg), 500*time.Millisecond)
 		for i := range obs {
 			if obs[i].f6 == nil {
 				continue
@@ -619,6 +622,113 @@ server6:
 					ctx.Count("wire.default_listen.replies_on_arrival_link", 1)
 				}
 			}
+		}
+		// DHCPv6 clients that show up behind another of the server's listening addresses (the default
+		// configuration has one multicast listener per interface): a client that moved from one link to
+		// the other is the same client, and what it was told it holds is still its own
+		{
+			held := map[int][]string{}
+			for k := 0; k < 3; k++ {
+				pfx, answered := solicit6(k, 1, true)
+				if w.srvDied(s, name, "a SOLICIT with an IA_PD", nil) {
+					return
+				}
+				if answered && len(pfx) > 0 {
+					held[k] = pfx
+				}
+			}
+			link6 = "vf1"
+			for _, k := range []int{2, 1, 0} {
+				if held[k] == nil {
+					continue
+				}
+				pfx, answered := solicit6(k, 3, true)
+				if w.srvDied(s, name, "a REQUEST with an IA_PD on the other link", nil) {
+					link6 = "ve1"
+					return
+				}
+				ctx.Eval("C09", 1)
+				if !answered {
+					ctx.Count("wire.default_listen.moved_client_unanswered", 1)
+					continue
+				}
+				if fmt.Sprint(pfx) != fmt.Sprint(held[k]) {
+					ctx.Viol("C09", "wire:prefix-forgotten-on-other-listener", "%s (process %d still running): client fe80::aa:%x was told on ve1 that it holds %v; its hint-less REQUEST to ff02::1:2 on vf1 is answered with %v", name, s.cmd.Process.Pid, 0x50+k, held[k], pfx)
+				} else {
+					ctx.Count("wire.default_listen.moved_clients_keep_their_prefix", 1)
+				}
+			}
+			link6 = "ve1"
+		}
+		// requests of both links queued while the server does not run (a scheduling gap, here SIGSTOP ..
+		// SIGCONT): whatever the read loop does with a backlog, every reply belongs on its request's link
+		if syscall.Kill(s.cmd.Process.Pid, syscall.SIGSTOP) == nil {
+			type queued struct {
+				link string
+				bf   uint16
+			}
+			sentOn := map[uint32]queued{}
+			w.sn.collect(0)
+			for k := 0; k < 8; k++ {
+				link := []string{"ve1", "vf1"}[k%2]
+				if k >= 4 && w.rng.Intn(2) == 0 {
+					link = []string{"ve1", "vf1"}[w.rng.Intn(2)]
+				}
+				mac := []byte{0x02, 0xc9, byte(w.rng.Intn(256)), byte(w.rng.Intn(256)), 1, byte(k)}
+				w.xid++
+				x := 0xb0000 + w.xid
+				p := pkt.Request4(x, mac, 1, pkt.O4(55, 1, 3))
+				if k%4 < 3 {
+					p.Flags = 0x8000
+				}
+				if w.inj[link].send(pkt.BuildFrame4(mac, bcast, [4]byte{}, [4]byte{255, 255, 255, 255}, 68, 67, p.Bytes())) == nil {
+					sentOn[x] = queued{link, p.Flags}
+					if w.sent == nil {
+						w.sent = map[uint32]bool{}
+					}
+					w.sent[x] = true
+				}
+			}
+			time.Sleep(2 * time.Millisecond)
+			syscall.Kill(s.cmd.Process.Pid, syscall.SIGCONT)
+			seen := map[uint32]bool{}
+			deadline := time.Now().Add(800 * time.Millisecond)
+			for time.Now().Before(deadline) && len(seen) < len(sentOn) {
+				for _, f := range w.sn.collect(0) {
+					b, _ := hex.DecodeString(f.Hex)
+					fr, err := pkt.ParseFrame(b)
+					if err != nil || !fr.IsIPv4UDP || fr.SrcPort != 67 || len(fr.Payload) < 8 {
+						continue
+					}
+					x := binary.BigEndian.Uint32(fr.Payload[4:8])
+					q, ok := sentOn[x]
+					if !ok {
+						continue
+					}
+					ctx.Eval("C15", 1)
+					ctx.Eval("C16", 1)
+					seen[x] = true
+					if f.If != q.link {
+						for _, prop := range []string{"C15", "C16"} {
+							ctx.Viol(prop, "wire:wrong-link-in-backlog", "%s: 8 DISCOVERs of two links were queued while the server process was stopped; the reply to the one received on %s (flags %#x) left on the link of %s", name, q.link, q.bf, f.If)
+						}
+					} else {
+						ctx.Count("wire.default_listen.backlog_replies_on_arrival_link", 1)
+					}
+				}
+				time.Sleep(500 * time.Microsecond)
+			}
+			if w.srvDied(s, name, "a backlog of 8 DISCOVERs", nil) {
+				return
+			}
+			for x, q := range sentOn {
+				if !seen[x] {
+					for _, prop := range []string{"C15", "C16"} {
+						ctx.Viol(prop, "wire:backlog-request-unanswered", "%s: 8 DISCOVERs of two links were queued while the server process was stopped; the one received on %s (flags %#x, xid %#x) got no reply on its link or the other within 800 ms", name, q.link, q.bf, x)
+					}
+				}
+			}
+			ctx.Count("wire.default_listen.backlogs", 1)
 		}
 		{
 			relayIP, relayMAC, srvIP := relayOf("ve1")
